@@ -75,6 +75,17 @@ func (s *mscope) get(n string) (mval, bool) {
 	return mval{}, false
 }
 
+// tableGet is the binding a Set would write: tables only, the external lookup is
+// not asked.
+func (s *mscope) tableGet(n string) (mval, bool) {
+	for e := s; e != nil; e = e.parent {
+		if v, ok := e.vals[n]; ok {
+			return v, true
+		}
+	}
+	return mval{}, false
+}
+
 func (s *mscope) typ(n string) (reflect.Type, bool) {
 	for e := s; e != nil; e = e.parent {
 		if t, ok := e.types[n]; ok {
@@ -230,6 +241,31 @@ func newForest(cfg int) *forest {
 		mc := newScope(m)
 		mc.ext = true
 		f.add(c, mc)
+	case 4:
+		// a chain three scopes deep with a value and a type bound at its outer end
+		// (searches start from non-initial states too: a look-up from s2 that is
+		// answered two levels up is one step away instead of four)
+		r.Define("a", int64(1))
+		r.DefineType("a", int64(0))
+		m.vals["a"] = mval{n: 1}
+		m.types["a"] = tInt64
+		c1 := r.NewEnv()
+		m1 := newScope(m)
+		f.add(c1, m1)
+		c2 := c1.NewEnv()
+		m2 := newScope(m1)
+		f.add(c2, m2)
+	case 5:
+		// root > module m > a scope inside the module, a bound in the root
+		r.Define("a", int64(1))
+		m.vals["a"] = mval{n: 1}
+		mod, _ := r.NewModule("m")
+		mm := newScope(m)
+		m.vals["m"] = mval{kind: 1, mod: mm}
+		f.add(mod, mm)
+		c2 := mod.NewEnv()
+		m2 := newScope(mm)
+		f.add(c2, m2)
 	}
 	return f
 }
@@ -581,6 +617,16 @@ func (f *forest) observe() (diff string) {
 				}
 			}
 		}
+		// Set of a name to the value it already has changes nothing observable; it is
+		// issued at every state so that whatever a Set leaves behind in the
+		// implementation (a remembered owner scope, say) exists before the next step
+		for _, n := range names {
+			if mv, ok := m.tableGet(n); ok && mv.kind == 0 {
+				if err := e.Set(n, mv.n); err != nil {
+					return fmt.Sprintf("scope %d Set(%q) to its current value %d: impl err=%v", i, n, mv.n, err)
+				}
+			}
+		}
 		for _, n := range obsTypeNames {
 			rt, rerr := e.Type(n)
 			mt, ok := m.typ(n)
@@ -661,6 +707,8 @@ func keyOf(f *forest, cfg int) [20]byte {
 	return k
 }
 
+const nCfg = 6
+
 // ---------- the search ----------
 
 type history struct {
@@ -669,7 +717,7 @@ type history struct {
 }
 
 func (h history) String() string {
-	cfg := []string{"ext=none", "ext=root", "ext=child(s1)", "ext=none,root-table-emptied"}[h.Cfg]
+	cfg := []string{"ext=none", "ext=root", "ext=child(s1)", "ext=none,root-table-emptied", "chain s0{a=1,type a}>s1>s2", "chain s0{a=1}>module m(s1)>s2"}[h.Cfg]
 	parts := []string{cfg}
 	for _, o := range h.Ops {
 		parts = append(parts, o.String())
@@ -775,7 +823,7 @@ func run(c *common.Ctx) *common.Result {
 func search(c *common.Ctx, res *common.Result, depth, capScopes int, alpha func(int, int) []op, tag string) {
 	seen := map[[20]byte]bool{}
 	var frontier []node
-	for cfg := 0; cfg < 4; cfg++ {
+	for cfg := 0; cfg < nCfg; cfg++ {
 		f := newForest(cfg)
 		if d := f.observe(); d != "" {
 			res.Violate(common.Violation{Class: "initial/state", Case: history{Cfg: cfg}.String(), Detail: d, Replay: history{Cfg: cfg}})
